@@ -79,8 +79,17 @@ def _fake_dislocation(E, L, lineindex, calls, natoms=3, outside_mask=(True, Fals
             self.atoms.view['pos'][:] = new
             calls.add('wrap', self, pbc, F, before)
 
+    P0 = E.reals('P0', (2, 3))
+
     class RCell(object):
         box = Box(vects=[[2.0, 0, 0], [1.5, 2.0, 0], [0, 1.8, 2.4]])
+
+        class atoms(object):
+            pos = P0.copy()
+        pos_before = P0
+
+        def wrap(self, *a, **k):
+            calls.add('rcell.wrap')
 
         def supersize(self, *mults):
             calls.add('supersize', mults)
@@ -262,6 +271,7 @@ def _monopole_group(lineindex):
             E.prove(tag + '.reference_periodicity_kept', tuple(bool(x) for x in base.pbc) == (True, True, True))
             E.prove(tag + '.reference_types', [int(x) for x in base.atoms.view['atype']] == [1, 2, 1] and tuple(base.symbols) == ('Al', 'Cu'))
             E.prove(tag + '.separate_objects', base is not disl and not _np.shares_memory(_np.asarray(bp), _np.asarray(dp)))
+            E.prove(tag + '.rotated_cell_untouched', not calls.of('rcell.wrap') and all(x.t is y.t for x, y in zip(fake.rcell.atoms.pos.ravel(), fake.rcell.pos_before.ravel())))
             if width_in is None:
                 E.prove(tag + '.no_boundary', [int(x) for x in disl.atoms.view['atype']] == [1, 2, 1] and tuple(disl.symbols) == ('Al', 'Cu') and not calls.of('outside'))
             else:
@@ -429,6 +439,7 @@ def _parray_group(lineindex):
                     E.prove(tag + '.reference_atom_of_old_id[%d,%d]' % (q, j), bp[q, j] == full[k, j])
             E.prove(tag + '.reference_types_of_old_id', [int(x) for x in base.atoms.view['atype']] == [at[k] for k in old_id])
             E.prove(tag + '.reference_cell_is_supercell', _np.array_equal(_np.asarray(base.box.vects, dtype=float), V) and tuple(bool(x) for x in base.pbc) == (True, True, True))
+            E.prove(tag + '.rotated_cell_untouched', not calls.of('rcell.wrap') and all(x.t is y.t for x, y in zip(fake.rcell.atoms.pos.ravel(), fake.rcell.pos_before.ravel())))
             if width_in is None:
                 E.prove(tag + '.no_boundary', [int(x) for x in disl.atoms.view['atype']] == [at[k] for k in old_id] and not calls.of('outside'))
             else:
@@ -877,6 +888,9 @@ def _cyl_boundary_group(lineindex):
         # squared distances from the coordinate origin to the four edge lines (times the squared edge length, to stay polynomial)
         num = [cross2(og, v1) ** 2, cross2(og, v2) ** 2, cross2([og[0] + v2[0], og[1] + v2[1]], v1) ** 2, cross2([og[0] + v1[0], og[1] + v1[1]], v2) ** 2]
         den = [n1, n2, n1, n2]
+        if 'norm' not in captured or 'min' not in captured:
+            from pyvc.sym import LeftFragment
+            raise LeftFragment('cylinder_boundary no longer computes its radius through numpy.linalg.norm / numpy.min of four points: the ghost-capture proof does not apply')
         pts = [a for (a, args, kw) in captured['norm'] if a.shape == (4, 2)]
         E.prove(tag + '.ghost_capture', len(pts) == 1 and len(captured.get('min', [])) == 1 and captured['min'][0].shape == (4,))
         pts = pts[0]
